@@ -245,7 +245,7 @@ def worker(case):
             if len(res['violations']) >= 3:
                 break
     except Inconclusive as e:
-        res['inconclusive'].append('grading grid %s sigma %s hist %d prefix %s: %s' % (gridname, sigma, hist_len,
+        res['inconclusive'].append('grading grid %s sigma %s hist %s prefix %s: %s' % (gridname, sigma, hist_len,
                                                                                        prefix, e))
     res['stats'] = eng.stats
     return res
